@@ -3,6 +3,7 @@ import MosnVerif.Lemmas.ConfigDir
 import MosnVerif.Lemmas.ConfigPairs2
 import MosnVerif.Lemmas.UpdatesMode
 import MosnVerif.Lemmas.ConfigOrder
+import MosnVerif.Lemmas.ConfigCb
 /-!
 # C19 — configuration survives dump and reload unchanged (property theorems only)
 
@@ -132,6 +133,36 @@ theorem circuitbreakers_fixpoint (th : Shape) (h : shapeOf "Thresholds" = some t
   rw [h] at hreg
   exact cb_fixpoint th hreg w x hU
 
+/-- **circuitbreakers_effective_survive**: MOSN applies one entry of `circuit_breakers` (`Gen.ConfigCb.plan`, regenerated
+from `cluster.NewResourceManager`: entry 0, defaults for an empty list), so the POSITION of every entry is configuration.
+For every wire document the real pair accepts, the dump read back has the same entries — as many, in the same order, with
+the same four limits, entries that set no limit (`{}`, an entry with only members MOSN does not know, `null`) included —
+hence the cluster built from the reloaded dump gets the limits of the running one.  (The fixpoint law above does not say
+this: a dump that drops limit-less entries is a fixpoint of the pair, yet moves another entry to the front.) -/
+theorem circuitbreakers_effective_survive (fs : Fields) (h : shapeOf "Thresholds" = some (.struct fs)) (w : Json) (x : CVal)
+    (hU : cbU (.struct fs) w = some x) :
+    ∃ y, cbU (.struct fs) (cbM (.struct fs) x) = some y ∧ ConfigCb.entries y = ConfigCb.entries x ∧
+      ConfigCb.effective y = ConfigCb.effective x := by
+  have hreg : (match shapeOf "Thresholds" with
+    | some (.struct fs) => keysOKF fs && ConfigCb.allNum fs | _ => false) = true := by decide +kernel
+  rw [h] at hreg
+  simp only [Bool.and_eq_true] at hreg
+  obtain ⟨y, h1, h2⟩ := ConfigCb.cb_entries_survive fs hreg.1 hreg.2 w x hU
+  exact ⟨y, h1, h2, by unfold ConfigCb.effective; rw [h2]⟩
+
+/-- non-vacuity and the witness of what is at stake: `[{"priority":"HIGH"},{…:0,…:0},null]` decodes to three entries, all
+dumped; the first entry is the effective one: `[{}, {max_connections 10, max_retries 3}]` means no limits, without the
+first entry the limits are those of the second -/
+example : (match shapeOf "Thresholds" with
+    | some th =>
+      (match cbU th (.arr [.obj [("priority", .str "HIGH")], .obj [("max_connections", .num "0"), ("max_retries", .num "0")], .null]) with
+      | some x => (ConfigCb.entries x).length == 3 && (cbM th x == .arr [.obj [], .obj [], .obj []])
+      | none => false)
+    | none => false) = true := by decide +kernel
+example : ConfigCb.effectiveOf ConfigCb.thresholdNames Gen.ConfigCb.plan [[0, 0, 0, 0], [10, 0, 0, 3]] = [0, 0, 0, 0] ∧
+    ConfigCb.effectiveOf ConfigCb.thresholdNames Gen.ConfigCb.plan [[10, 0, 0, 3]] = [10, 0, 0, 3] ∧
+    ConfigCb.effectiveOf ConfigCb.thresholdNames Gen.ConfigCb.plan [] = [0, 0, 0, 0] := by decide +kernel
+
 /-- **Listener** over the regenerated `ListenerConfig`: empty address and networks other than tcp / udp / unix are
 rejected, `network` is defaulted and lower-cased by the first `UnmarshalJSON`, the address is replaced by the resolver's
 answer; for every resolver whose answers are non-empty and resolve to themselves (`ResolverOK`: `net.Resolve*Addr` of
@@ -221,61 +252,63 @@ example : (match embFields "ListenerConfig" with
 section Directory
 open MosnVerif.Model.ConfigDir MosnVerif.Model.DirTypes
 
-/-- **dynamic_roundtrip_partial**: let `ops` be file-name operations that end with `+ ext` and `uniqueFileName`, where
+/-- **dynamic_roundtrip**: let `ops` be file-name operations that end with `+ ext` and `uniqueFileName`, where
 `ext` is the extension the loader reads, and that replace every path separator before (`opsOK`, decided below for the
-regenerated lists).  Then for EVERY directory content `d` (files of any name and body), every list of items `cs` — names
+regenerated lists; likewise every NUL byte).  Then for EVERY directory content `d` (files of any name and body), every list of items `cs` — names
 of any length, colliding after truncation / separator replacement, empty, even repeated — every clock and every item
 codec with `dcd (enc c) = some (nrm c)`: the dump succeeds, and the loader applied to what the dump left returns exactly
 the items dumped (as a permutation: `ReadDir` sorts by file name), each as one (un)marshal cycle leaves it.
-PARTIAL — full statement: the same without `hnames`.  It fails for a name containing a NUL byte (`open` refuses the file
-name, the dump returns the error: KNOWN_FINDINGS `dynnul`, witness below). -/
-theorem dynamic_roundtrip_partial {α : Type} (ops : List NameOp) (hops : opsOK ops Gen.ConfigDir.readExt = true)
+No hypothesis on the names: a NUL byte is replaced like the separator (repaired defect `dynnul`: before, `open` refused
+the file name and the whole dump failed — witness below on the operations before the repair). -/
+theorem dynamic_roundtrip {α : Type} (ops : List NameOp) (hops : opsOK ops Gen.ConfigDir.readExt = true)
     (enc : α → Json) (dcd : Json → Option α) (nrm : α → α) (hcodec : ∀ c, dcd (enc c) = some (nrm c))
-    (nameOf : α → Bytes) (clock : Nat → Bytes) (hclock : ClockOK clock) (d : Dir) (cs : List α)
-    (hnames : ∀ c ∈ cs, free 0 (nameOf c)) :
+    (nameOf : α → Bytes) (clock : Nat → Bytes) (hclock : ClockOK clock) (d : Dir) (cs : List α) :
     ∃ d' l, marshalDynamic ops enc nameOf clock d cs = some d' ∧
       unmarshalDynamic dcd Gen.ConfigDir.readExt d' = some l ∧ l.Perm (cs.map nrm) :=
-  dynamic_roundtrip_gen ops _ hops enc dcd nrm nameOf clock hclock d cs (fun c _ => hcodec c) hnames
+  dynamic_roundtrip_gen ops _ hops enc dcd nrm nameOf clock hclock d cs (fun c _ => hcodec c)
 
 /-- the **regenerated** operations of `ClusterManagerConfig.MarshalJSON` and `RouterConfiguration.MarshalJSON` are such
-operations: truncation to `MaxFilePath`, then the separator replacement, then the extension, then `uniqueFileName` -/
+operations: truncation to `MaxFilePath`, then the separator and the NUL replacement, then the extension, then
+`uniqueFileName`, then the in-use mark `delete(allFiles, fileName)` on the final name; and they read the clock only for an empty name (`stampFirst`) -/
 theorem regenerated_name_ops_ok :
     opsOK Gen.ConfigDir.clusterNameOps Gen.ConfigDir.readExt = true ∧
     opsOK Gen.ConfigDir.vhostNameOps Gen.ConfigDir.readExt = true := by decide +kernel
 
+theorem regenerated_name_ops_stamp_first :
+    stampFirst Gen.ConfigDir.clusterNameOps = true ∧ stampFirst Gen.ConfigDir.vhostNameOps = true := by decide +kernel
+
 /-- clusters in `clusters_configs` mode -/
-theorem dynamic_roundtrip_clusters_partial {α : Type} (enc : α → Json) (dcd : Json → Option α) (nrm : α → α)
+theorem dynamic_roundtrip_clusters {α : Type} (enc : α → Json) (dcd : Json → Option α) (nrm : α → α)
     (hcodec : ∀ c, dcd (enc c) = some (nrm c)) (nameOf : α → Bytes) (clock : Nat → Bytes) (hclock : ClockOK clock)
-    (d : Dir) (cs : List α) (hnames : ∀ c ∈ cs, free 0 (nameOf c)) :
+    (d : Dir) (cs : List α) :
     ∃ d' l, marshalDynamic Gen.ConfigDir.clusterNameOps enc nameOf clock d cs = some d' ∧
       unmarshalDynamic dcd Gen.ConfigDir.readExt d' = some l ∧ l.Perm (cs.map nrm) :=
-  dynamic_roundtrip_partial _ regenerated_name_ops_ok.1 enc dcd nrm hcodec nameOf clock hclock d cs hnames
+  dynamic_roundtrip _ regenerated_name_ops_ok.1 enc dcd nrm hcodec nameOf clock hclock d cs
 
 /-- virtual hosts in `router_configs` mode -/
-theorem dynamic_roundtrip_vhosts_partial {α : Type} (enc : α → Json) (dcd : Json → Option α) (nrm : α → α)
+theorem dynamic_roundtrip_vhosts {α : Type} (enc : α → Json) (dcd : Json → Option α) (nrm : α → α)
     (hcodec : ∀ c, dcd (enc c) = some (nrm c)) (nameOf : α → Bytes) (clock : Nat → Bytes) (hclock : ClockOK clock)
-    (d : Dir) (cs : List α) (hnames : ∀ c ∈ cs, free 0 (nameOf c)) :
+    (d : Dir) (cs : List α) :
     ∃ d' l, marshalDynamic Gen.ConfigDir.vhostNameOps enc nameOf clock d cs = some d' ∧
       unmarshalDynamic dcd Gen.ConfigDir.readExt d' = some l ∧ l.Perm (cs.map nrm) :=
-  dynamic_roundtrip_partial _ regenerated_name_ops_ok.2 enc dcd nrm hcodec nameOf clock hclock d cs hnames
+  dynamic_roundtrip _ regenerated_name_ops_ok.2 enc dcd nrm hcodec nameOf clock hclock d cs
 
 /-- the directory round trip **closed over the regenerated item codec** (`s` = `Cluster` with the operations of
 `ClusterManagerConfig.MarshalJSON`, or `VirtualHost` with those of `RouterConfiguration.MarshalJSON`): the shape of `s`
 unfolds from the regenerated field tables *including* its custom members (HealthCheck, KeepAlive, Host, CircuitBreakers,
 TLS / SDS; Router, RouteAction, ClusterWeight, RetryPolicy — classified from their method bodies, `Gen.ConfigPairs`); for
 every directory, clock and list of values of that shape, the dump succeeds, the loader returns the items as one cycle
-normalises them, and these re-encode to the very same documents — a second dump writes the same set of documents.
-PARTIAL as above (NUL-free names). -/
-theorem dynamic_roundtrip_closed_partial (s : String) (ops : List NameOp) (sh : Shape) (h : shapeOf s = some sh)
+normalises them, and these re-encode to the very same documents — a second dump writes the same set of documents. -/
+theorem dynamic_roundtrip_closed (s : String) (ops : List NameOp) (sh : Shape) (h : shapeOf s = some sh)
     (hreg : (match shapeOf s with | some sh => keysOK sh | none => false) = true)
     (hops : opsOK ops Gen.ConfigDir.readExt = true) (clock : Nat → Bytes) (hclock : ClockOK clock) (d : Dir)
-    (cs : List CVal) (hwt : ∀ c ∈ cs, wt sh c = true) (hnames : ∀ c ∈ cs, free 0 (itemName sh c)) :
+    (cs : List CVal) (hwt : ∀ c ∈ cs, wt sh c = true) :
     ∃ d' l, marshalDynamic ops (encode sh) (itemName sh) clock d cs = some d' ∧
       unmarshalDynamic (decode sh) Gen.ConfigDir.readExt d' = some l ∧ l.Perm (cs.map (norm sh)) ∧
       (l.map (encode sh)).Perm (cs.map (encode sh)) := by
   rw [h] at hreg
   obtain ⟨d', l, h1, h2, h3⟩ := dynamic_roundtrip_gen ops _ hops (encode sh) (decode sh) (norm sh) (itemName sh) clock
-    hclock d cs (fun c hc => rt sh hreg c (hwt c hc)) hnames
+    hclock d cs (fun c hc => rt sh hreg c (hwt c hc))
   refine ⟨d', l, h1, h2, h3, ?_⟩
   have h4 := h3.map (encode sh)
   refine h4.trans ?_
@@ -284,30 +317,102 @@ theorem dynamic_roundtrip_closed_partial (s : String) (ops : List NameOp) (sh : 
   rw [List.map_congr_left this]
 
 /-- clusters (`clusters_configs`) and virtual hosts (`router_configs`) with their regenerated shapes -/
-theorem dynamic_roundtrip_clusters_closed_partial (sh : Shape) (h : shapeOf "Cluster" = some sh) (clock : Nat → Bytes)
-    (hclock : ClockOK clock) (d : Dir) (cs : List CVal) (hwt : ∀ c ∈ cs, wt sh c = true)
-    (hnames : ∀ c ∈ cs, free 0 (itemName sh c)) :
+theorem dynamic_roundtrip_clusters_closed (sh : Shape) (h : shapeOf "Cluster" = some sh) (clock : Nat → Bytes)
+    (hclock : ClockOK clock) (d : Dir) (cs : List CVal) (hwt : ∀ c ∈ cs, wt sh c = true) :
     ∃ d' l, marshalDynamic Gen.ConfigDir.clusterNameOps (encode sh) (itemName sh) clock d cs = some d' ∧
       unmarshalDynamic (decode sh) Gen.ConfigDir.readExt d' = some l ∧ l.Perm (cs.map (norm sh)) ∧
       (l.map (encode sh)).Perm (cs.map (encode sh)) :=
-  dynamic_roundtrip_closed_partial "Cluster" _ sh h (by decide +kernel) regenerated_name_ops_ok.1 clock hclock d cs hwt hnames
+  dynamic_roundtrip_closed "Cluster" _ sh h (by decide +kernel) regenerated_name_ops_ok.1 clock hclock d cs hwt
 
-theorem dynamic_roundtrip_vhosts_closed_partial (sh : Shape) (h : shapeOf "VirtualHost" = some sh) (clock : Nat → Bytes)
-    (hclock : ClockOK clock) (d : Dir) (cs : List CVal) (hwt : ∀ c ∈ cs, wt sh c = true)
-    (hnames : ∀ c ∈ cs, free 0 (itemName sh c)) :
+theorem dynamic_roundtrip_vhosts_closed (sh : Shape) (h : shapeOf "VirtualHost" = some sh) (clock : Nat → Bytes)
+    (hclock : ClockOK clock) (d : Dir) (cs : List CVal) (hwt : ∀ c ∈ cs, wt sh c = true) :
     ∃ d' l, marshalDynamic Gen.ConfigDir.vhostNameOps (encode sh) (itemName sh) clock d cs = some d' ∧
       unmarshalDynamic (decode sh) Gen.ConfigDir.readExt d' = some l ∧ l.Perm (cs.map (norm sh)) ∧
       (l.map (encode sh)).Perm (cs.map (encode sh)) :=
-  dynamic_roundtrip_closed_partial "VirtualHost" _ sh h (by decide +kernel) regenerated_name_ops_ok.2 clock hclock d cs hwt hnames
+  dynamic_roundtrip_closed "VirtualHost" _ sh h (by decide +kernel) regenerated_name_ops_ok.2 clock hclock d cs hwt
 
 /-- **dynamic_files**: what the dump leaves — one file per item, pairwise distinct names, each with the extension the
 loader reads; nothing else survives, whatever the directory held -/
 theorem dynamic_files {α : Type} (ops : List NameOp) (hops : opsOK ops Gen.ConfigDir.readExt = true) (enc : α → Json)
-    (nameOf : α → Bytes) (clock : Nat → Bytes) (hclock : ClockOK clock) (d : Dir) (cs : List α)
-    (hnames : ∀ c ∈ cs, free 0 (nameOf c)) :
+    (nameOf : α → Bytes) (clock : Nat → Bytes) (hclock : ClockOK clock) (d : Dir) (cs : List α) :
     ∃ files : List (Bytes × α), marshalDynamic ops enc nameOf clock d cs = some (files.map (docOf enc)) ∧
-      (files.map (·.1)).Nodup ∧ (∀ p ∈ files, ext p.1 = Gen.ConfigDir.readExt) ∧ files.map (·.2) = cs.reverse :=
-  marshalDynamic_spec ops _ hops enc nameOf clock hclock d cs hnames
+      (files.map (·.1)).Nodup ∧ (∀ p ∈ files, ext p.1 = Gen.ConfigDir.readExt) ∧ files.map (·.2) = cs.reverse ∧
+      files = plan ops nameOf clock cs :=
+  marshalDynamic_spec ops _ hops enc nameOf clock hclock d cs
+
+/-- **dump_independent_of_directory**: what a dump leaves in the directory is a function of the items and the clock
+(`plan`) — not of what the directory held: stale files, files of an earlier dump under the very names this dump
+chooses (`x.json`, `x_1.json`), operator files under unrelated names -/
+theorem dump_independent_of_directory {α : Type} (ops : List NameOp) (hops : opsOK ops Gen.ConfigDir.readExt = true)
+    (enc : α → Json) (nameOf : α → Bytes) (clock : Nat → Bytes) (hclock : ClockOK clock) (d₁ d₂ : Dir) (cs : List α) :
+    marshalDynamic ops enc nameOf clock d₁ cs = marshalDynamic ops enc nameOf clock d₂ cs := by
+  rw [marshalDynamic_plan ops _ hops enc nameOf clock hclock d₁ cs,
+    marshalDynamic_plan ops _ hops enc nameOf clock hclock d₂ cs]
+
+/-- **dump_idempotent** (dump ; dump = dump): a second dump of the same items into the directory the first one left
+reproduces that directory exactly — same file names, same documents; in particular the stale-file cleanup of the second
+dump removes none of the files it has just written, disambiguated ones (`x_1.json`) included.  The clock is read only
+for items without a name (`stampFirst`, decided for the regenerated operations), so with named items the two dumps may
+run at any two times. -/
+theorem dump_idempotent {α : Type} (ops : List NameOp) (hops : opsOK ops Gen.ConfigDir.readExt = true)
+    (hst : stampFirst ops = true) (enc : α → Json) (nameOf : α → Bytes) (clock clock' : Nat → Bytes)
+    (hclock : ClockOK clock) (hclock' : ClockOK clock') (d : Dir) (cs : List α)
+    (hnames : (∀ c ∈ cs, nameOf c ≠ []) ∨ clock' = clock) :
+    ∃ d₁, marshalDynamic ops enc nameOf clock d cs = some d₁ ∧ marshalDynamic ops enc nameOf clock' d₁ cs = some d₁ := by
+  refine ⟨_, marshalDynamic_plan ops _ hops enc nameOf clock hclock d cs, ?_⟩
+  rw [marshalDynamic_plan ops _ hops enc nameOf clock' hclock' _ cs]
+  rcases hnames with h | h
+  · unfold plan; rw [planLoop_clock_indep ops hst nameOf clock' clock cs h 0 0 []]
+  · rw [h]
+
+/-- **reload_after_dumps**: after ANY number (≥ 1) of dumps of the same items into the same directory, at any times —
+items without a name included, whose files are renamed by every dump —, whatever the directory held at the start, the
+loader returns exactly the dumped items -/
+theorem reload_after_dumps {α : Type} (ops : List NameOp) (hops : opsOK ops Gen.ConfigDir.readExt = true)
+    (enc : α → Json) (dcd : Json → Option α) (nrm : α → α) (hcodec : ∀ c, dcd (enc c) = some (nrm c))
+    (nameOf : α → Bytes) (cs : List α) (clocks : List (Nat → Bytes)) (hne : clocks ≠ [])
+    (hclocks : ∀ k ∈ clocks, ClockOK k) (d : Dir) :
+    ∃ d' l, dumps ops enc nameOf cs clocks d = some d' ∧
+      unmarshalDynamic dcd Gen.ConfigDir.readExt d' = some l ∧ l.Perm (cs.map nrm) := by
+  induction clocks generalizing d with
+  | nil => exact absurd rfl hne
+  | cons k r ih =>
+    obtain ⟨d₁, l, h1, h2, h3⟩ := dynamic_roundtrip_gen ops _ hops enc dcd nrm nameOf k (hclocks k (by simp)) d cs
+      (fun c _ => hcodec c)
+    cases r with
+    | nil => exact ⟨d₁, l, by simp [dumps, h1], h2, h3⟩
+    | cons k2 r2 =>
+      obtain ⟨d', l', g1, g2, g3⟩ := ih (by simp) (fun k' hk' => hclocks k' (by simp [hk'])) d₁
+      exact ⟨d', l', by simpa [dumps, h1] using g1, g2, g3⟩
+
+/-- both for the regenerated operations of the two directory pairs -/
+theorem dump_idempotent_regenerated {α : Type} (enc : α → Json) (nameOf : α → Bytes) (clock clock' : Nat → Bytes)
+    (hclock : ClockOK clock) (hclock' : ClockOK clock') (d : Dir) (cs : List α)
+    (hnames : (∀ c ∈ cs, nameOf c ≠ []) ∨ clock' = clock) :
+    (∃ d₁, marshalDynamic Gen.ConfigDir.clusterNameOps enc nameOf clock d cs = some d₁ ∧
+      marshalDynamic Gen.ConfigDir.clusterNameOps enc nameOf clock' d₁ cs = some d₁) ∧
+    (∃ d₁, marshalDynamic Gen.ConfigDir.vhostNameOps enc nameOf clock d cs = some d₁ ∧
+      marshalDynamic Gen.ConfigDir.vhostNameOps enc nameOf clock' d₁ cs = some d₁) :=
+  ⟨dump_idempotent _ regenerated_name_ops_ok.1 regenerated_name_ops_stamp_first.1 enc nameOf clock clock' hclock hclock'
+      d cs hnames,
+   dump_idempotent _ regenerated_name_ops_ok.2 regenerated_name_ops_stamp_first.2 enc nameOf clock clock' hclock hclock'
+      d cs hnames⟩
+
+/-- non-vacuity: `svc/v1`, `svc_v1` dumped twice over a stray file — the second dump keeps `svc_v1_1.json`; an
+in-use mark taken BEFORE `uniqueFileName` (second example: not `opsOK`) loses it on the second dump, and the item with
+it: the first dump is fine, which is why a single dump → reload cycle cannot show it -/
+example : (match dumps Gen.ConfigDir.vhostNameOps (fun _ : Bytes => Json.null) id
+      [[115, 47, 118], [115, 95, 118]] [fun _ => [49], fun _ => [50]] [([120], .junk)] with
+    | some d => d.map (·.1) | none => []) =
+    [[115, 95, 118, 95, 49, 46, 106, 115, 111, 110], [115, 95, 118, 46, 106, 115, 111, 110]] := by decide +kernel
+example : opsOK [.orStamp, .truncate 128 128, .replaceAll 47 [95], .append [46, 106, 115, 111, 110], .mark, .unique]
+      Gen.ConfigDir.readExt = false ∧
+    (fun k => match dumps [.orStamp, .truncate 128 128, .replaceAll 47 [95], .append [46, 106, 115, 111, 110], .mark, .unique]
+        (fun _ : Bytes => Json.null) id [[115, 47, 118], [115, 95, 118]] (List.replicate k (fun _ => [49])) [([120], .junk)] with
+      | some d => d.length | none => 0) 1 = 2 ∧
+    (fun k => match dumps [.orStamp, .truncate 128 128, .replaceAll 47 [95], .append [46, 106, 115, 111, 110], .mark, .unique]
+        (fun _ : Bytes => Json.null) id [[115, 47, 118], [115, 95, 118]] (List.replicate k (fun _ => [49])) [([120], .junk)] with
+      | some d => d.length | none => 0) 2 = 1 := by decide +kernel
 
 /-- **unique_file_name**: `uniqueFileName` never returns a name already written by this dump (its loop ends within
 `|written| + 1` rounds), and leaves a free name alone -/
@@ -317,15 +422,11 @@ theorem unique_file_name (written : List Bytes) (f : Bytes) :
 
 /-! non-vacuity and witnesses (names as bytes: `a/b` = [97,47,98], `a_b` = [97,95,98], `.json` = [46,106,115,111,110]) -/
 
-/-- hypotheses of `dynamic_roundtrip_partial` are satisfiable: a directory with a stray file, two colliding names,
+/-- hypotheses of `dynamic_roundtrip` are satisfiable: a directory with a stray file, two colliding names,
 a clock showing digits -/
-example : ClockOK (fun i => dec i) ∧ (∀ c ∈ [[97, 47, 98], [97, 95, 98]], free 0 (c : Bytes)) := by
-  constructor
-  · intro i
-    exact ⟨free_dec 0 (by decide) i, free_dec 47 (by decide) i⟩
-  · intro c hc
-    simp only [List.mem_cons, List.mem_nil_iff, or_false] at hc
-    rcases hc with rfl | rfl <;> intro x hx <;> simp at hx <;> rcases hx with rfl | rfl | rfl <;> decide
+example : ClockOK (fun i => dec i) := by
+  intro i
+  exact ⟨free_dec 0 (by decide) i, free_dec 47 (by decide) i⟩
 
 /-- the repaired dump on `a/b`, `a_b` (same file name after the separator replacement) over a stale file: two files -/
 example : (match marshalDynamic Gen.ConfigDir.clusterNameOps (fun _ : Bytes => Json.null) id (fun _ => [49])
@@ -335,7 +436,7 @@ example : (match marshalDynamic Gen.ConfigDir.clusterNameOps (fun _ : Bytes => J
 
 /-- the operations BEFORE the repair (commit a55302045): no `uniqueFileName` — `a/b` and `a_b` (likewise two names with a
 common prefix of `MaxFilePath` bytes) went to one file and one item was lost: a defect of the unchanged tree, repaired -/
-example : (match marshalDynamic [.orStamp, .truncate 128 128, .replaceAll 47 [95], .append [46, 106, 115, 111, 110]]
+example : (match marshalDynamic [.orStamp, .truncate 128 128, .replaceAll 47 [95], .append [46, 106, 115, 111, 110], .mark]
       (fun _ : Bytes => Json.null) id (fun _ => [49]) [] [[97, 47, 98], [97, 95, 98]] with
     | some d => d.length | none => 0) = 1 := by decide +kernel
 example : fileName [.orStamp, .truncate 128 128, .replaceAll 47 [95], .append [46, 106, 115, 111, 110]] [] []
@@ -343,14 +444,27 @@ example : fileName [.orStamp, .truncate 128 128, .replaceAll 47 [95], .append [4
     fileName [.orStamp, .truncate 128 128, .replaceAll 47 [95], .append [46, 106, 115, 111, 110]] [] []
       (List.replicate 128 97 ++ [66]) := by decide +kernel
 
-/-- negation witness for the full statement: a NUL byte in a name makes the dump fail -/
-example : (marshalDynamic Gen.ConfigDir.clusterNameOps (fun _ : Bytes => Json.null) id (fun _ => [49]) []
-    [[97, 0, 98]]).isNone = true := by decide +kernel
+/-- the operations BEFORE the NUL repair are not `opsOK`, and a NUL byte in a name made the dump fail (defect `dynnul`,
+repaired); with the regenerated operations `a\0b`, `a/b`, `a_b`, a name of only such bytes and a name longer than
+`MaxFilePath` ending in them all get files of their own -/
+example : opsOK [.orStamp, .truncate 128 128, .replaceAll 47 [95], .append [46, 106, 115, 111, 110], .unique, .mark]
+      Gen.ConfigDir.readExt = false ∧
+    (marshalDynamic [.orStamp, .truncate 128 128, .replaceAll 47 [95], .append [46, 106, 115, 111, 110], .unique, .mark]
+      (fun _ : Bytes => Json.null) id (fun _ => [49]) [] [[97, 0, 98]]).isNone = true := by decide +kernel
+example : (match marshalDynamic Gen.ConfigDir.clusterNameOps (fun _ : Bytes => Json.null) id (fun _ => [49]) []
+      [[97, 0, 98], [97, 47, 98], [97, 95, 98], [0, 47, 0]] with
+    | some d => d.map (·.1) | none => []) =
+    [[95, 95, 95, 46, 106, 115, 111, 110], [97, 95, 98, 95, 50, 46, 106, 115, 111, 110],
+     [97, 95, 98, 95, 49, 46, 106, 115, 111, 110], [97, 95, 98, 46, 106, 115, 111, 110]] := by decide +kernel
+example : (match marshalDynamic Gen.ConfigDir.vhostNameOps (fun _ : Bytes => Json.null) id (fun _ => [49]) []
+      [List.replicate 127 97 ++ [0, 66], List.replicate 127 97 ++ [47, 67]] with
+    | some d => d.map (fun f => (f.1.length, f.1.drop 126)) | none => []) =
+    [(135, [97, 95, 95, 49, 46, 106, 115, 111, 110]), (133, [97, 95, 46, 106, 115, 111, 110])] := by decide +kernel
 
 /-- appending the extension BEFORE the truncation is not `opsOK`: a name of 124 bytes gets the extension `.jso` -/
-example : opsOK [.orStamp, .replaceAll 47 [95], .append [46, 106, 115, 111, 110], .truncate 128 128, .unique]
+example : opsOK [.orStamp, .replaceAll 47 [95], .append [46, 106, 115, 111, 110], .truncate 128 128, .unique, .mark]
       Gen.ConfigDir.readExt = false ∧
-    ext (fileName [.orStamp, .replaceAll 47 [95], .append [46, 106, 115, 111, 110], .truncate 128 128, .unique] [] []
+    ext (fileName [.orStamp, .replaceAll 47 [95], .append [46, 106, 115, 111, 110], .truncate 128 128, .unique, .mark] [] []
       (List.replicate 124 97)) = [46, 106, 115, 111] := by decide +kernel
 
 end Directory
